@@ -123,6 +123,25 @@ theorem incomplete_answer_is_a_failed_attempt {Doc : Type} (required : List Stri
     (dur : Int) (m : String) (hm : m ∈ required) (hn : m ∉ present d) :
     classify required present (.json d dur) = .fail dur := classify_incomplete required present d dur m hm hn
 
+/-- **heals, stated over what the provider actually answers.**  After any finite sequence of answers none of which is provider
+    metadata — refused connections, failing statuses, bodies that do not decode, *and* 200 answers lacking a required member — the
+    first complete document initialises the instance with that very document, no later than the durations of the failed attempts
+    plus `maxDelay + retryInterval` per failure. -/
+theorem heals_answers {Doc : Type} (f : Facts) (hl : f.loops = true) (hb : 0 ≤ f.baseDelay) (hm : 0 ≤ f.maxDelay)
+    (hr : 0 ≤ f.retryInterval) (required : List String) (present : Doc → List String) (bad : List (Answer Doc))
+    (hbad : ∀ a ∈ bad, BadAnswer required present a) (d : Doc) (hd : complete required (present d) = true) (dur : Int) (t : Int) (i : Nat) :
+    (initRun f ((bad ++ [Answer.json d dur]).map (classify required present)) t i).2 = some d ∧
+    (initRun f ((bad ++ [Answer.json d dur]).map (classify required present)) t i).1
+      ≤ t + totalDur (bad.map (classify required present)) + (bad.length : Int) * (f.maxDelay + f.retryInterval) + dur := by
+  have e : (bad ++ [Answer.json d dur]).map (classify required present) = bad.map (classify required present) ++ [.ok d dur] := by
+    simp [classify, hd]
+  rw [e]
+  have h := Oidc.Discovery.heals f hl hb hm hr (bad.map (classify required present)) (allFail_classified required present bad hbad) d dur t i
+  refine ⟨h.1, ?_⟩
+  have hlen := totalDur_classified_length required present bad
+  rw [hlen] at h
+  exact h.2.1
+
 -- (premises satisfiable / the classification at work: `{}`, issuer only, a refused connection, then a complete document)
 example : (initRun exF ([Answer.json [] 0, .json ["issuer"] 0, .noAnswer 0, .json needed 0].map (classify needed id)) 0 0).2 = some needed := by decide
 example : classify needed id (.json ["issuer", "authorization_endpoint", "token_endpoint"] 7) = .fail 7 := by simp [classify, complete, needed]
